@@ -54,6 +54,7 @@ func init() {
 			return []Instance{
 				{Scenario: "c08_rollback", Params: mustJSON(RollbackParams{}), Bound: 0, Shards: 8},
 				{Scenario: "c08_rollback", Params: mustJSON(RollbackParams{Finite: true}), Bound: 0, Shards: 8, Note: "finite mode: the re-request after the rollback has the same (bounded) end"},
+				{Scenario: "c08_endincatchup", Params: mustJSON(struct{}{}), Bound: 0, Note: "the re-requested stream ends transiently before it is back at the checkpointed position: re-opened like any other, nothing at or below F shown"},
 				{Scenario: "c08_rollback", Params: mustJSON(RollbackParams{Fail: "failoverlog"}), Bound: 0, Shards: 2},
 				{Scenario: "c08_rollback", Params: mustJSON(RollbackParams{Fail: "reopen"}), Bound: 0, Shards: 2},
 				{Scenario: "c08_rollback", Params: mustJSON(RollbackParams{Fail: "failoverlog-silent"}), Bound: 0, Shards: 2, Note: "the failover-log query is never answered"},
@@ -433,5 +434,68 @@ func reopenRollbackMain() {
 	}
 	if malformed {
 		vrt.Failf("%s: an item outside its announced snapshot did not stop the client", outcome)
+	}
+}
+
+// c08_endincatchup: the stream that was re-requested after a rollback ends with a transient cause BEFORE it is
+// back at the position F the client had checkpointed (the catch-up filter is still armed). The end is a
+// transient end like any other: the vBucket is re-opened, nothing at or below F is shown, everything above F is.
+func init() {
+	scenarios["c08_endincatchup"] = func(raw json.RawMessage) *vrt.Scenario {
+		return &vrt.Scenario{Name: "c08_endincatchup", FreeChoices: true, NoTimerAlt: true, MaxSteps: 400000, Main: func() {
+			resetGlobals()
+			const F, oldUUID, newUUID = 5, 900, 901
+			R := uint64(vrt.Choose(F-1, true, "R")) // 0..F-2: at least one event to catch up on before the end
+			sent := R + 1 + uint64(vrt.Choose(int(F-1-R), true, "sent-before-the-end"))
+			causes := []error{gocbcore.ErrSocketClosed, gocbcore.ErrDCPBackfillFailed, gocbcore.ErrDCPStreamStateChanged, gocbcore.ErrDCPStreamTooSlow, gocbcore.ErrDCPStreamDisconnected}
+			cause := causes[vrt.Choose(len(causes), true, "cause")]
+			o := EnvOpts{Vbs: 2, CheckpointType: "manual", WrapMeta: true}
+			c := NewCluster(&o)
+			c.Vb[0].Failover = []gocbcore.FailoverEntry{{VbUUID: oldUUID, SeqNo: 0}}
+			c.Append(0, marker(1, F+2))
+			for s := uint64(1); s <= F+2; s++ {
+				c.Append(0, symbolPacket("M", s))
+			}
+			seedCheckpoint(c, srcBucket, "g", 0, oldUUID, F, F, F+2)
+			item := func(s uint64) gocbcore.SimPacket { return docPacket("mutation", s, fmt.Sprintf("new%d", s), "after", 0) }
+			log := []gocbcore.SimPacket{marker(R+1, F+2)}
+			for s := R + 1; s <= sent; s++ {
+				log = append(log, item(s))
+			}
+			c.Vb[0].Opens = []gocbcore.SimOpen{{Kind: "rollback", Rollback: R, SwapLog: log, SwapFailover: []gocbcore.FailoverEntry{{VbUUID: newUUID, SeqNo: 0}}}}
+			c.Append(1, marker(1, 1), symbolPacket("M", 1))
+			e := NewEnv(c, o)
+			e.Cons.AutoAck = true
+			e.Stream.Open()
+			c.WaitIdle()
+			desc := fmt.Sprintf("checkpoint F=%d, rollback to R=%d, the new branch has sent %d..%d when the stream ends (%v)", F, R, R+1, sent, cause)
+			if !c.EndStream(0, cause) {
+				vrt.Failf("harness: %s: no open stream", desc)
+				return
+			}
+			for s := sent + 1; s <= F+2; s++ {
+				c.Append(0, item(s))
+			}
+			vrt.Sleep(3e9)
+			vrt.Quiesce()
+			c.WaitIdle()
+			if !c.StreamOpen(0) {
+				_, active := e.Stream.GetMetric()
+				vrt.Failf("%s: vb0 was not re-opened and the client keeps running without it (active streams %d)", desc, active)
+			}
+			var got []uint64
+			for _, d := range e.Cons.Events {
+				if d.Vb == 0 {
+					got = append(got, d.Seq)
+					if d.Seq <= F {
+						vrt.Failf("%s: event seq %d (at or below the checkpointed position) was shown again", desc, d.Seq)
+					}
+				}
+			}
+			if fmt.Sprint(got) != fmt.Sprint([]uint64{F + 1, F + 2}) {
+				vrt.Failf("%s: consumer saw %v of vb0, want [%d %d]", desc, got, F+1, F+2)
+			}
+			vrt.SetOutcome(desc)
+		}}
 	}
 }
